@@ -2,3 +2,4 @@ import Fs.Basic
 import Fs.Store
 import Fs.Recover
 import Fs.Request
+import Fs.Proofs
